@@ -1,0 +1,55 @@
+//go:build verif
+
+package condition
+
+// Exported wrappers used only by the external verification harness (build tag verif), property C12.
+
+// VerifFastShape reports what the shape recognisers compiled for the expression text:
+// kind 0 = no fast path, 1 = single comparison, 2 = AND chain, 3 = OR chain; parts = the comparisons.
+type VerifFastPart struct {
+	Field    string
+	Op       string
+	NumLit   float64
+	StrLit   string
+	IsString bool
+}
+
+func verifPart(fc *fastCompare) VerifFastPart {
+	return VerifFastPart{Field: fc.field, Op: fc.op, NumLit: fc.numLit, StrLit: fc.strLit, IsString: fc.isString}
+}
+
+// VerifFastShape runs tryFastCompound / tryFastCompare exactly as NewExprCondition does (without
+// compiling the expression with expr-lang).
+func VerifFastShape(expression string) (kind int, parts []VerifFastPart) {
+	if fc := tryFastCompound(expression); fc != nil {
+		kind = 3
+		if fc.op == "AND" {
+			kind = 2
+		}
+		for _, p := range fc.parts {
+			parts = append(parts, verifPart(p))
+		}
+		return kind, parts
+	}
+	if fc := tryFastCompare(expression); fc != nil {
+		return 1, []VerifFastPart{verifPart(fc)}
+	}
+	return 0, nil
+}
+
+// VerifFastEval reports the answer of the compiled shortcut of a condition built by
+// NewExprCondition: ok=false means "no shortcut, or the shortcut declined and Evaluate falls back
+// to the general evaluator".
+func VerifFastEval(c Condition, env any) (result bool, ok bool) {
+	ec, isEC := c.(*ExprCondition)
+	if !isEC {
+		return false, false
+	}
+	if ec.compound != nil {
+		return ec.compound.eval(env)
+	}
+	if ec.fast != nil {
+		return ec.fast.eval(env)
+	}
+	return false, false
+}
